@@ -23,7 +23,7 @@ import (
 var yieldPoints = []string{
 	"fc.update.added", "fc.send.loaded", "fc.send.beforeWait", "fc.send.beforeCAS", "fc.send.reserved", "fc.dequeue.beforeCredit",
 	"rev.open.created", "rev.open.betweenAdds", "rev.open.beforeKeyAdd", "rev.unregister.between", "revsrv.serve.beforeAdd", "revsrv.stop.beforeCloseSend",
-	"carrier.send.beforeLock", "client.newStream.allocated", "client.newStream.sent", "client.recv.gotFrame", "client.close.afterTearDown",
+	"carrier.send.beforeLock", "client.newStream.allocated", "client.newStream.sent", "client.recv.gotFrame", "client.recv.beforeAccept", "server.recv.beforeAccept", "client.close.afterTearDown",
 	"client.read.beforeDequeue", "client.cancel.beforeReceiverCancel", "client.finish.afterDone", "client.finish.betweenPublish",
 	"server.recv.gotFrame", "server.create.begin", "server.read.beforeDequeue", "server.read.dequeueFalse", "server.watcher.beforeCancel",
 	"server.finish.afterCancel", "server.finish.afterRemove", "server.finish.beforeWrite",
